@@ -72,6 +72,31 @@ Theorem C12_unsized_exact_prefix_refuted :
 Proof. exact unsized_exact_prefix_refuted. Qed.
 Print Assumptions C12_unsized_exact_prefix_refuted.
 
+(* ---- storage that fails a request now and serves it later (File/Transient.v) ---- *)
+From UV Require Import File.Transient.
+
+(* one reader over a DAG with true sizes, positioned at off, asked again after every load error, any buffer sizes, any
+   budget of failing requests per block: the bytes the Reads deliver, in order, are the content from off on, up to where
+   the reader stands; at most as many Reads report an error as the budget holds; a Read that reports end-of-file has
+   delivered the rest (`C12_transient_eof`) *)
+Theorem C12_transient_reads : forall root off ks r, well_sized root = true -> 0 <= off ->
+  let '(out, s', r') := readsR r (stream nofault root off) ks in
+  concat (map fst out) ++ sbytes s' = skipz off (content root)
+  /\ (length (filter (fun o => match snd o with StErr _ => true | _ => false end) out) <= btotal r)%nat.
+Proof. exact transient_reads. Qed.
+Print Assumptions C12_transient_reads.
+
+Theorem C12_transient_eof : forall r s k, sclean s = true ->
+  let '(bs, _, st, s', _) := takeR r s k [] [] in st = StEOF -> bs = sbytes s.
+Proof. exact takeR_eof. Qed.
+Print Assumptions C12_transient_eof.
+
+(* with the budget spent the reader is the fault-free one again *)
+Theorem C12_transient_recovers : forall r s k acc loads, btotal r = O -> sclean s = true ->
+  let '(bs, l, st, s', r') := takeR r s k acc loads in (bs, l, st, s') = take s k acc loads /\ r' = r.
+Proof. exact takeR_no_budget. Qed.
+Print Assumptions C12_transient_recovers.
+
 (* ---- sharded directories ---- *)
 From UV Require Import Hamt.Build Hamt.Read Hamt.ShardDecode Hamt.Refine Hamt.RefineTrace Hamt.RefineLength Base.Varint.
 From Coq Require Import Permutation.
